@@ -88,8 +88,8 @@ Lemma decode_app scale st rest X s rest' :
   decode_segment scale st rest = Ok (Some (s, rest')) ->
   decode_segment scale st (rest ++ X) = Ok (Some (s, rest' ++ X)) /\ (length rest' < length rest)%nat.
 Proof.
-  unfold decode_segment. destruct rest as [|h r0]; [discriminate|].
-  cbn [app]. destruct (scale =? 0); [discriminate|]. cbv zeta.
+  unfold decode_segment. rewrite ?shorter_length. destruct rest as [|h r0]; [discriminate|]. rewrite ?shorter_length.
+  cbn [app]. destruct (scale =? 0); [discriminate|]. cbv zeta. rewrite ?shorter_length.
   set (nx := (num_coords h - 1)%nat). set (ny := (num_coords (Z.shiftr h 2) - 1)%nat).
   set (nz := (num_coords (Z.shiftr h 4) - 1)%nat). set (nw := (num_coords (Z.shiftr h 6) - 1)%nat).
   destruct (length r0 <? 2 + 2 * (nx + ny + nz + nw))%nat eqn:El; [discriminate|].
@@ -166,7 +166,7 @@ Proof.
     exists (s :: segs). eapply dec_cons; eassumption.
   - exists []. unfold decode_segment in Ed.
     destruct (c_rest c) as [|h r0]; [constructor|].
-    destruct (t_scale tr =? 0) eqn:E0; [lia|]. exfalso. cbv zeta in Ed.
+    destruct (t_scale tr =? 0) eqn:E0; [lia|]. exfalso. cbv zeta in Ed. rewrite ?shorter_length in Ed.
     destruct (length r0 <? _)%nat; [discriminate Ed|].
     destruct r0 as [|d0 [|d1 r1]]; try discriminate Ed.
     destruct (take_i16 _ r1) as [[xs r2]|]; try discriminate Ed.
